@@ -186,7 +186,9 @@ def judge_limits(case, hist):
     skipped = 0
 
     def mbs_in_force(t0, t1):
-        vals = [v for t, v in mbs_log if t <= t0 + EPS]
+        # largest limit in force at any instant of [t0, t1]; a mutation at exactly t0 is a tie, so the
+        # value in force just before t0 counts too
+        vals = [v for t, v in mbs_log if t < t0 - EPS]
         cur = vals[-1] if vals else cfg['mbs']
         more = [v for t, v in mbs_log if t0 - EPS <= t <= t1 + EPS]
         return max([cur] + more)
@@ -199,8 +201,17 @@ def judge_limits(case, hist):
             continue
         arr = [callers[i]['arrived'] for i in ids]
         lim = mbs_in_force(min(arr), b['start'])
-        if len(ids) > lim:
-            out.append(V('oversize', f'batch {b["id"]} has {len(ids)} items, max_batch_size in force {lim}', 'oversize'))
+        # The size test that admitted the k-th item ran after the (k-1)-th item had joined, i.e. no earlier than
+        # that item's arrival: k-1 < limit in force at some instant of [arrival_{k-1}, start].  (Which limit applies
+        # *during* a mutation is not stated; this is the most lenient reading that still holds the batcher to a
+        # limit that was in force before the previous item even arrived.)
+        for pos in range(2, len(arr) + 1):
+            lim_k = mbs_in_force(arr[pos - 2], b['start'])
+            if pos > lim_k:
+                out.append(V('oversize', f'batch {b["id"]} took a {pos}-th item although max_batch_size was at most {lim_k} from the '
+                             f'arrival of the previous item ({arr[pos - 2]:.4f}) until the batch started at {b["start"]:.4f} '
+                             f'(limits: {mbs_log})', 'oversize' if len(mbs_log) == 1 else 'oversize:after-mutation'))
+                break
         running = sum(1 for o in batches if o['start'] <= b['start'] + EPS and (o['end'] is None or o['end'] > b['start'] + EPS)
                       and (o['start'] < b['start'] - EPS or o['id'] <= b['id']))
         if b['conc'] > cfg['mcb']:
